@@ -65,6 +65,7 @@ var (
 		"https//example.com", "://example.com", "1https://example.com", "https://", "", "https://*.", "https://*",
 		"https://" + strings.Repeat("a", 64) + ".com", "https://" + longHost(254, 'a'), "\x00", "https://exa\x00mple.com",
 		"https://xn--a.com", "https://[::1]", "https://127.0.0.1",
+		"https://*." + longHost(251, 'a') + ".", "https://*." + longHost(252, 'a'), "https://" + longHost(254, 'a') + ".", // one byte over each length limit
 	}
 	// hosts with ACE labels: acceptance is decided by the IDNA profile (oracle); well-formed, Bidi-violating, bogus
 	originsACE = []string{"https://xn--shop-.example.com", "https://*.xn--cdn-.example.com:*", "https://xn--bcher-kva.example", "https://xn--4db.com", "https://xn--a-0hc.com", "https://xn--a-zhc.example.com:8443",
